@@ -7,6 +7,8 @@
 -/
 import PonyVerif.Lemmas.RepRead
 import PonyVerif.Gen.OccTable
+import PonyVerif.Lemmas.CollRead
+import PonyVerif.Gen.CollGuards
 namespace PonyVerif.Props.C21
 open PonyVerif.Model.RepRead
 
@@ -309,5 +311,98 @@ theorem C21_bridge_set : ∀ row ∈ setRows, modelSet row.1.1 row.1.2 = row.2 :
 theorem C21_bridge_dbset : ∀ row ∈ dbSetRows, modelDbSet row.1.1 row.1.2.1 row.1.2.2.1 row.1.2.2.2 = row.2 := by decide
 theorem C21_bridge_save : ∀ row ∈ saveRows, modelSave row.1.1 row.1.2.1 row.1.2.2.1 row.1.2.2.2 = row.2 := by decide
 theorem C21_bridge_crit : ∀ row ∈ critRows, row.1.1 = 0 → modelCrit row.1.2 = row.2 := by decide
+
+/-! ### many-to-many collections: the read set of both sides (Model/CollRead.lean)
+
+`Set.load` (many-to-many branch), `Set.prefetch_load_all`, `Set.db_reverse_add`; the three phantom guards are parameters of
+the model and are read off the source on every run (harness/gen_c21.py -> Gen/CollGuards.lean). -/
+
+section ManyToMany
+open PonyVerif.Model
+
+/-- the guards of the code AS CODED -/
+def codedGuards : CollRead.Guards :=
+  ⟨PonyVerif.Gen.CollGuards.addChecks, PonyVerif.Gen.CollGuards.prefetchChecks, PonyVerif.Gen.CollGuards.loadSkipsFull⟩
+
+/-- bridge: the source has all three guards the theorems need, the `disappeared` checks the model makes unconditionally, and
+    the guard of `db_reverse_remove` that the one-to-many model takes as `guarded = true` -/
+theorem C21_guards_as_coded :
+    CollRead.AllGuards codedGuards ∧ PonyVerif.Gen.CollGuards.disappearChecks = true ∧ PonyVerif.Gen.CollGuards.removeChecks = true := by
+  refine ⟨⟨by decide, by decide, by decide⟩, by decide, by decide⟩
+
+/-- **a fully read many-to-many collection changes only with UnrepeatableReadError** (any state, any committed link table,
+    any operation -- iteration, len, load, explicit prefetch -- of either side, also when it raises): with the guards as coded,
+    a fully loaded collection stays fully loaded with the same items -/
+theorem C21_m2m_step_full (s : CollRead.Sess) (db : CollRead.Db) (op : CollRead.Op) (side : Bool) (o : Nat) (sd : CollRead.SetData)
+    (hk : s.sets side o = some sd) (hf : sd.full = true) :
+    ∃ sd', (CollRead.exec codedGuards s db op).1.sets side o = some sd' ∧ sd'.full = true ∧ sd'.items = sd.items :=
+  CollRead.exec_full codedGuards C21_guards_as_coded.1 s db op side o sd hk hf
+
+/-- a successful iteration leaves the collection fully loaded with the items it returned -/
+theorem C21_m2m_iter_observes (g : CollRead.Guards) (hl : g.loadSkipsFull = true) (s s1 : CollRead.Sess) (db : CollRead.Db)
+    (side : Bool) (o : Nat) (l : List Nat) (h : CollRead.exec g s db (.iter side o) = (s1, .items l)) :
+    ∃ sd, s1.sets side o = some sd ∧ sd.full = true ∧ sd.items = l := by
+  have hs := (CollRead.loadColl_spec g hl s db side o).1
+  simp only [CollRead.exec] at h
+  split at h
+  · simp at h
+  · rename_i s2 heq
+    rw [heq] at hs
+    obtain ⟨sd, hk, hf⟩ := hs rfl
+    simp only at hk
+    simp only [Prod.mk.injEq, CollRead.Res.items.injEq] at h
+    obtain ⟨rfl, rfl⟩ := h
+    exact ⟨sd, hk, hf, by simp [hk]⟩
+
+/-- **C21, many-to-many** (all histories, all adversary choices, code as coded): once a collection is fully loaded with
+    items `sd.items`, after ANY further operations on either side interleaved with ANY committed changes of the link table,
+    iteration returns exactly these items and `len` their number -/
+theorem C21_m2m_full_collection_stable (s : CollRead.Sess) (side : Bool) (o : Nat) (sd : CollRead.SetData)
+    (hk : s.sets side o = some sd) (hf : sd.full = true) (tr : List (CollRead.Db × CollRead.Op)) (db : CollRead.Db) :
+    (CollRead.exec codedGuards (CollRead.runS codedGuards s tr) db (.iter side o)).2 = .items sd.items ∧
+    (CollRead.exec codedGuards (CollRead.runS codedGuards s tr) db (.len side o)).2 = .num sd.items.length := by
+  obtain ⟨sd2, hk2, hf2, hi2⟩ := CollRead.run_full codedGuards C21_guards_as_coded.1 tr s side o sd hk hf
+  have hl := (CollRead.loadColl_spec codedGuards C21_guards_as_coded.1.2.2 (CollRead.runS codedGuards s tr) db side o).2 sd2 hk2 hf2
+  constructor
+  · simp only [CollRead.exec, hl, hk2, Option.getD_some, hi2]
+  · simp only [CollRead.exec, hl, hk2, Option.getD_some, hi2]
+
+/-- iteration observed `l` ⇒ every later iteration returns `l` and every later `len` returns `l.length` -/
+theorem C21_m2m_iter_repeat (s s1 : CollRead.Sess) (db1 : CollRead.Db) (side : Bool) (o : Nat) (l : List Nat)
+    (h : CollRead.exec codedGuards s db1 (.iter side o) = (s1, .items l)) (tr : List (CollRead.Db × CollRead.Op)) (db2 : CollRead.Db) :
+    (CollRead.exec codedGuards (CollRead.runS codedGuards s1 tr) db2 (.iter side o)).2 = .items l ∧
+    (CollRead.exec codedGuards (CollRead.runS codedGuards s1 tr) db2 (.len side o)).2 = .num l.length := by
+  obtain ⟨sd, hk, hf, rfl⟩ := C21_m2m_iter_observes codedGuards C21_guards_as_coded.1.2.2 s s1 db1 side o l h
+  exact C21_m2m_full_collection_stable s1 side o sd hk hf tr db2
+
+/-- the guards are NEEDED.  Without the appeared-check in `prefetch_load_all` (the code before fix 0192669): iterate Q1.tags
+    = [1]; another session links T2; prefetch of Q.tags; iterate -> [1, 2], no error -/
+theorem C21_m2m_prefetch_unguarded_adds :
+    (CollRead.run ⟨true, false, true⟩ CollRead.Sess.init
+      [([(1, 1)], .iter false 1), ([(1, 1), (1, 2)], .prefetch false [1]), ([(1, 1), (1, 2)], .iter false 1)]).2
+      = [.items [1], .ok, .items [1, 2]] := by decide
+
+/-- the same history on the code as it is: the prefetch raises -/
+theorem C21_m2m_prefetch_guarded_raises :
+    (CollRead.run ⟨true, true, true⟩ CollRead.Sess.init
+      [([(1, 1)], .iter false 1), ([(1, 1), (1, 2)], .prefetch false [1]), ([(1, 1), (1, 2)], .iter false 1)]).2
+      = [.items [1], .err .unrepeatable, .items [1]] := by decide
+
+/-- without the check in `db_reverse_add`: loading the OTHER side silently extends a fully loaded collection -/
+theorem C21_m2m_reverse_add_unguarded_adds :
+    (CollRead.run ⟨false, true, true⟩ CollRead.Sess.init
+      [([(1, 1)], .iter false 1), ([(1, 1), (1, 2)], .iter true 2), ([(1, 1), (1, 2)], .iter false 1)]).2
+      = [.items [1], .items [1], .items [1, 2]] := by decide
+
+/-- the one-to-many theorems for the `db_reverse_remove` guard AS CODED -/
+theorem C21_full_collection_stable_as_coded (cfg : Cfg) (s : Sess) (p : Nat) (sd : SetData)
+    (hk : s.kids p = some sd) (hf : sd.full = true) (tr : List (Db × Op)) (db : Db) :
+    (exec cfg PonyVerif.Gen.CollGuards.removeChecks (runS cfg PonyVerif.Gen.CollGuards.removeChecks s tr) db (.iter p)).2 = .objs sd.items ∧
+    (exec cfg PonyVerif.Gen.CollGuards.removeChecks (runS cfg PonyVerif.Gen.CollGuards.removeChecks s tr) db (.len p)).2 = .num sd.items.length := by
+  have hflag : PonyVerif.Gen.CollGuards.removeChecks = true := by decide
+  rw [hflag]
+  exact ⟨(C21_full_collection_stable cfg s p sd hk hf tr db).1, (C21_full_collection_stable cfg s p sd hk hf tr db).2.1⟩
+
+end ManyToMany
 
 end PonyVerif.Props.C21
